@@ -1379,7 +1379,7 @@ fn add_negation(r: &mut Rng, s: &mut Skel) {
             }
         }
         for _attempt in 0..12 {
-            let np = r.range(1, 2);
+            let np = r.range(1, 3);
             let mut prem = vec![];
             for _ in 0..np {
                 prem.push((gen_pt(r, &vars, &consts, 80), PT::C(r.pick(&preds).clone()), gen_pt(r, &vars, &consts, 75)));
@@ -1398,8 +1398,21 @@ fn add_negation(r: &mut Rng, s: &mut Skel) {
                 neg.push((bt(r), PT::C(r.pick(&preds).clone()), bt(r)));
             }
             let hp = if r.chance(1, 4) { r.pick(&preds).clone() } else { format!("nq{}", j) };
-            let head = vec![(bt(r), PT::C(hp), bt(r))];
-            let cand = LRule { pos: prem, neg, filters: vec![], head };
+            let mut head = vec![(bt(r), PT::C(hp.clone()), bt(r))];
+            if r.chance(1, 4) {
+                // a second conclusion sharing the tag of the first
+                let hp2 = if r.coin() { hp } else { format!("nr{}", j) };
+                head.push((bt(r), PT::C(hp2), bt(r)));
+            }
+            let mut filters = vec![];
+            if bound.len() >= 2 && r.chance(1, 5) {
+                let a = r.pick(&bound).clone();
+                let b = r.pick(&bound).clone();
+                if a != b {
+                    filters.push((a, r.pick(&["=", "!="]).to_string(), b));
+                }
+            }
+            let cand = LRule { pos: prem, neg, filters, head };
             let mut all = s.rules.clone();
             all.push(cand.clone());
             let probe = Inst { family: String::new(), certain: vec![], uncertain: vec![], probs: vec![], rules: all };
